@@ -300,3 +300,18 @@ PROPS["C20"] = {
                       "(*github.com/gmrtd/gmrtd/verifier.Verifier).Verify": "verifStubVerifierVerify"}},
     ],
 }
+
+PROPS["C06"] = {
+    "patterns": ["./chipauth"],
+    "harness": {"chipauth": ["chipauth/c14.go", "chipauth/c06.go", "chipauth/c06b.go"]},
+    "level_text": "Claimed in part: the two mechanisms of chip authentication that are integer/byte code. (1) Parameter and key selection: the real SSA of selectChipAuthParams, resolveCAInfo, selectCAPubKeyInfo, inferCAInfoFromKey and the algorithm table is executed on security infos built directly (0..2 ChipAuthenticationInfos over all 8 suites with key id absent/1/2, 0..2 public keys DH/ECDH with key id absent/1/2, all symbolic) and compared with a reference selection: never panics, picks the info of maximal weight, the first key of that suite's key-agreement type whose id matches when the info names one, fails only when no such key exists, infers the suite from the first key only when no info is present. (2) Session keys: the real SSA of deriveSessionKeys, cryptoutils.EcDhSharedSecret, KDF, DesKeyAdjustParity with the ECDH point multiplication replaced by a stub returning an arbitrary x-coordinate (big.Int modelled as sign+magnitude bit-vectors): KS.ENC/KS.MAC = KDF(x as an octet string of exactly the field length, 1/2) for every value of x, including the 1/256 slice with leading zero octets (asserted reachable and explicitly forced).",
+    "level_note": "Not applicable to this technique: that a conforming chip holding the key is always accepted and a chip without it never (elliptic-curve scalar multiplication over P-192..P-521/brainpool in math/big and crypto/elliptic, explicit-parameter decoding through encoding/asn1) and the CAM check KA(CA_IC, PK_IC) = PK_Map. The step 'success only after a protected exchange under the new keys' reduces to SecureMessaging.Decode's acceptance condition (C03) and is exercised on evidence in C14; the restarted counter is part of C14's VerifyEvidence harness (SmSsc length) and C10. The shared-secret harness uses an injected stub and is not replayed natively; the leading-zero defect it found was reproduced natively on P-256 (known_findings.json).",
+    "bounds": "selection: up to 2 infos and 2 keys, key ids in {absent,1,2}; shared secret: field length 32 bytes quick (24, 28, 32, 48, 64, 66 thorough), 3DES and AES-128 quick (+192/256 thorough)",
+    "outside": "EC arithmetic, DH (finite-field) chip authentication, key decoding, more than 2 infos/keys",
+    "assumptions": ["SHA-1/SHA-256 as uninterpreted functions", "DoEcDh returns an arbitrary point (stub)"],
+    "jobs": [
+        {"func": "verifH_C06_select", "pkg": "chipauth", "params": {"infos": [0, 1, 2], "keys": [0, 1, 2]}, "unwind": 64, "expect_reach": ["selected"]},
+        {"func": "verifH_C06_secret", "pkg": "chipauth", "params": {"fieldbytes": [32], "aes": [0, 128], "leadzero": [0, 1]}, "params_thorough": {"fieldbytes": [24, 28, 32, 48, 64, 66], "aes": [0, 128, 192, 256]},
+         "unwind": 300, "canon_all": True, "no_replay": True, "redirect": {"github.com/gmrtd/gmrtd/cryptoutils.DoEcDh": "verifStubDoEcDh"}, "expect_reach": ["derived"]},
+    ],
+}
